@@ -113,6 +113,10 @@ func runC04(ctx *Ctx, c c04Case) {
 			ctx.Res.Count("unbalanced-deadlock(C05's F20)")
 			return
 		}
+		if c.Dag.reconvergingBatch() && (rr.Exit == 2 || rr.Exit == -2) {
+			ctx.Res.Count("batch-deadlock(C05's F23)")
+			return
+		}
 		ctx.Res.Violate(Violation{What: fmt.Sprintf("workflow exited %d: %s", rr.Exit, firstLine(rr.Stderr)), Class: "c04.run-failed", Witness: c})
 		return
 	}
